@@ -3,7 +3,10 @@
 not_applicable list).  Run after adding a check."""
 import json, os, subprocess
 root = os.path.dirname(os.path.dirname(os.path.abspath(__file__)))
-cfg = json.load(open(os.path.join(root, "checks", "checks.json")))
+import glob
+cfg = {}
+for f in glob.glob(os.path.join(root, "checks", "*", "check.json")):
+    c = json.load(open(f)); cfg[c["id"]] = c
 props = [json.loads(l) for l in open(os.path.join(root, "properties.jsonl")) if l.strip()]
 baseline = json.load(open("/root/.vp/BASELINE.json"))["cmd"]
 try:
